@@ -165,7 +165,7 @@ func c16MkSource(items []c16Item, o c16Opts) (*c16Source, *gopacket.PacketSource
 }
 
 func c16AllOpts(r *vlib.Rand) c16Opts {
-	return c16Opts{zero: r.Bool(), do: gopacket.DecodeOptions{Lazy: r.Bool(), NoCopy: r.Chance(1, 3), Pool: false}}
+	return c16Opts{zero: r.Bool(), do: gopacket.DecodeOptions{Lazy: r.Bool(), NoCopy: r.Chance(1, 3), Pool: r.Chance(1, 3)}}
 }
 
 // c16CheckPacket compares a delivered packet with what the script produced.
